@@ -309,3 +309,40 @@ Definition model_decls (prefix : str) (ds : list cdecl) := add_decls prefix [] [
 Definition tbl_equiv (a b : list (str * evalue)) : Prop := forall k, elookup k a = elookup k b.
 Definition decl_table (d : cdecl) : option (list (str * evalue)) :=
   match d with DModel _ => None | DEnum _ _ vs => values_from_list vs end.
+
+(* ------------------------------------------------------------------ (b') the two parameter lists of one operation
+   Endpoint.from_data calls add_parameters with the OPERATION's list, and EndpointCollection.from_data then calls it again with the
+   PATH ITEM's list (parser/openapi.py:85-93, 434-440).  Each call: `if data.parameters is None: return endpoint` (no check at all);
+   otherwise every listed parameter that is not already present under the same (name, location) is appended to its location's list
+   (so operation-level parameters win and come first), and _check_parameters_for_conflicts runs over ALL parameters of the endpoint,
+   with the python names the first call left on them and a fresh modified set. *)
+Definition fresh_items (existing : list param) (item : list (loc * str)) : list (loc * str) :=
+  filter (fun x => negb (mem_key x (map param_key existing))) item.
+
+Definition phase2_input (prefix : str) (existing : list param) (item : list (loc * str)) : list param :=
+  order_params (existing ++ map (param_init prefix) (fresh_items existing item)).
+
+Definition params_phase1 (prefix : str) (op : option (list (loc * str))) : res (list param) :=
+  match op with None => Ok [] | Some l => model_params prefix l end.
+
+Definition model_params2 (prefix : str) (op item : option (list (loc * str))) : res (list param) :=
+  match params_phase1 prefix op with
+  | Err => Err
+  | Ok ps1 => match item with
+              | None => Ok ps1
+              | Some it => check_params prefix (phase2_input prefix ps1 it)
+              end
+  end.
+
+(* run-time guard: the last run of the loop of the LAST check that was executed renamed nothing *)
+Definition g_params2_quiet (prefix : str) (op item : option (list (loc * str))) : bool :=
+  match params_phase1 prefix op with
+  | Err => true
+  | Ok ps1 => match item with
+              | Some it => g_last_pass_quiet prefix (phase2_input prefix ps1 it)
+              | None => match op with
+                        | Some l => g_last_pass_quiet prefix (order_params (map (param_init prefix) l))
+                        | None => true
+                        end
+              end
+  end.
